@@ -155,6 +155,11 @@ pub struct World {
     /// first id handed out for the current perspective
     pub pid_lo: u64,
     pub ckpts: Vec<CkSnap>,
+    /// false once a segment has been written while a fact write was pending without a command:
+    /// the runtime never does that (every rule is followed by `add_command` or `revert`), the
+    /// property and the theorems assume command boundaries, so from then on the case is only
+    /// compared with the model, not with the flat-map oracle
+    pub oracle_on: bool,
 }
 
 /// what was visible when a checkpoint was taken
@@ -187,6 +192,7 @@ impl World {
             phead0: None,
             pid_lo: 0,
             ckpts: vec![],
+            oracle_on: true,
         }
     }
     /// a new current perspective starts from `flat`
@@ -242,6 +248,12 @@ pub fn dump_index(ix: &FIndex, rec: &mut Recorder) -> String {
 }
 
 pub fn check_q(rec: &mut Recorder, what: &str, got: &Result<Option<Vec<u8>>, String>, want: Option<Vec<u8>>) -> String {
+    if !rec_oracle_on() {
+        return match got {
+            Err(e) => format!("err {e}"),
+            Ok(g) => show_opt(g),
+        };
+    }
     match got {
         Err(e) => {
             rec.oracle_fail(format!("{what}: query failed: {e}"));
@@ -256,6 +268,12 @@ pub fn check_q(rec: &mut Recorder, what: &str, got: &Result<Option<Vec<u8>>, Str
     }
 }
 pub fn check_qp(rec: &mut Recorder, what: &str, got: &Result<Vec<(FKey, Vec<u8>)>, String>, want: Vec<(FKey, Vec<u8>)>) -> String {
+    if !rec_oracle_on() {
+        return match got {
+            Err(e) => format!("err {e}"),
+            Ok(g) => show_facts(g),
+        };
+    }
     match got {
         Err(e) => {
             rec.oracle_fail(format!("{what}: prefix query failed: {e}"));
@@ -272,10 +290,22 @@ pub fn check_qp(rec: &mut Recorder, what: &str, got: &Result<Vec<(FKey, Vec<u8>)
 
 pub const BAD: &str = "bad-op";
 
+thread_local! {
+    static ORACLE_ON: std::cell::Cell<bool> = const { std::cell::Cell::new(true) };
+}
+fn rec_oracle_on() -> bool {
+    ORACLE_ON.with(|c| c.get())
+}
+
 /// Executes one request line on the real storage; returns the canonical answer.
 pub fn exec(w: &mut World, rec: &mut Recorder, op: &str) -> String {
     let t: Vec<&str> = op.split(' ').filter(|s| !s.is_empty()).collect();
     let num = |s: &str| s.parse::<usize>().ok();
+    if t.first() == Some(&"new") {
+        ORACLE_ON.with(|c| c.set(true));
+    } else {
+        ORACLE_ON.with(|c| c.set(w.oracle_on));
+    }
     match t.as_slice() {
         ["new"] => {
             *w = World::new();
@@ -295,7 +325,12 @@ pub fn exec(w: &mut World, rec: &mut Recorder, op: &str) -> String {
             let Some(n) = num(n) else { return BAD.into() };
             let Some(p) = w.persp.as_mut() else { return BAD.into() };
             let len = w.psnaps.len();
-            match p.revert(Checkpoint { index: n }) {
+            // `bug!` panics in debug builds and returns `StorageError::Bug` in release builds
+            let res = match crate::catch(std::panic::AssertUnwindSafe(|| p.revert(Checkpoint { index: n }))) {
+                Ok(r) => r.map_err(|e| format!("{e}")),
+                Err(msg) => Err(msg),
+            };
+            match res {
                 Err(e) => {
                     if n <= len {
                         rec.oracle_fail(format!("revert to {n} (≤ {len} commands) failed: {e}"));
@@ -338,36 +373,38 @@ pub fn exec(w: &mut World, rec: &mut Recorder, op: &str) -> String {
                     w.pheads.truncate(n);
                     w.ppending = false;
                     w.ckpts.retain(|c| c.index <= n);
-                    // observational equality: every key that was or is bound, every name
-                    let p = w.persp.as_ref().unwrap();
-                    let mut keys: Vec<FKey> = before.keys().chain(want.keys()).cloned().collect();
-                    keys.sort();
-                    keys.dedup();
-                    let mut names: Vec<Vec<u8>> = keys.iter().map(|k| k.0.clone()).collect();
-                    names.dedup();
-                    for k in &keys {
-                        let got = real_query(p, k);
-                        if got != Ok(want.get(k).cloned()) {
-                            rec.oracle_fail(format!("after `{op}`: query {} = {:?}, at the checkpoint it was {}", show_key(k), got, show_opt(&want.get(k).cloned())));
+                    if w.oracle_on {
+                        // observational equality: every key that was or is bound, every name
+                        let p = w.persp.as_ref().unwrap();
+                        let mut keys: Vec<FKey> = before.keys().chain(want.keys()).cloned().collect();
+                        keys.sort();
+                        keys.dedup();
+                        let mut names: Vec<Vec<u8>> = keys.iter().map(|k| k.0.clone()).collect();
+                        names.dedup();
+                        for k in &keys {
+                            let got = real_query(p, k);
+                            if got != Ok(want.get(k).cloned()) {
+                                rec.oracle_fail(format!("after `{op}`: query {} = {:?}, at the checkpoint it was {}", show_key(k), got, show_opt(&want.get(k).cloned())));
+                            }
                         }
-                    }
-                    for nm in names {
-                        let pk = (nm, vec![]);
-                        let got = real_prefix(p, &pk);
-                        let exp = flat_prefix(&want, &pk);
-                        if got != Ok(exp.clone()) {
-                            rec.oracle_fail(format!("after `{op}`: prefix query {} = {:?}, at the checkpoint it was {}", show_key(&pk), got, show_facts(&exp)));
+                        for nm in names {
+                            let pk = (nm, vec![]);
+                            let got = real_prefix(p, &pk);
+                            let exp = flat_prefix(&want, &pk);
+                            if got != Ok(exp.clone()) {
+                                rec.oracle_fail(format!("after `{op}`: prefix query {} = {:?}, at the checkpoint it was {}", show_key(&pk), got, show_facts(&exp)));
+                            }
                         }
-                    }
-                    let head = p.head_address().expect("head_address");
-                    let want_head = if n == 0 { w.phead0.unwrap() } else { w.pheads[n - 1] };
-                    if head != want_head {
-                        rec.oracle_fail(format!("after `{op}`: head address differs from the one at the checkpoint"));
-                    }
-                    for id in w.pid_lo..w.next_id {
-                        let inc = p.includes(cmd_id(id));
-                        if inc != w.pids.contains(&id) {
-                            rec.oracle_fail(format!("after `{op}`: includes(command {id}) = {inc}"));
+                        let head = p.head_address().expect("head_address");
+                        let want_head = if n == 0 { w.phead0.unwrap() } else { w.pheads[n - 1] };
+                        if head != want_head {
+                            rec.oracle_fail(format!("after `{op}`: head address differs from the one at the checkpoint"));
+                        }
+                        for id in w.pid_lo..w.next_id {
+                            let inc = p.includes(cmd_id(id));
+                            if inc != w.pids.contains(&id) {
+                                rec.oracle_fail(format!("after `{op}`: includes(command {id}) = {inc}"));
+                            }
                         }
                     }
                     "ok".into()
@@ -433,6 +470,10 @@ pub fn exec(w: &mut World, rec: &mut Recorder, op: &str) -> String {
             let Some(p) = w.persp.take() else { return BAD.into() };
             if w.graph.is_none() {
                 return BAD.into();
+            }
+            if w.ppending && w.oracle_on {
+                w.oracle_on = false;
+                rec.count("case:oracle-off-after-write-with-pending-update");
             }
             match w.storage().write(p) {
                 Ok(seg) => {
@@ -610,9 +651,17 @@ pub fn run_case(rec: &mut Recorder, ops: &[String]) {
     let mut w = World::new();
     for op in ops {
         let opc = op.clone();
+        let nfail = rec.oracle_failures.len();
         let r = crate::catch(std::panic::AssertUnwindSafe(|| exec(&mut w, rec, &opc)));
         match r {
-            Ok(ans) => rec.line(op.clone(), ans),
+            Ok(ans) => {
+                rec.line(op.clone(), ans);
+                // the replayable input of a failure includes the failing request itself
+                let lines = rec.current_case_lines();
+                for f in rec.oracle_failures[nfail..].iter_mut() {
+                    f.input = lines.clone();
+                }
+            }
             Err(msg) => {
                 rec.line(op.clone(), format!("panic {msg}"));
                 rec.panics.push(format!("`{op}` panicked: {msg}"));
@@ -623,3 +672,76 @@ pub fn run_case(rec: &mut Recorder, ops: &[String]) {
     }
 }
 
+
+// ------------------------------------------------------------------ key pools for generators
+
+pub const POOL_NAMES: [&[u8]; 4] = [b"a", b"ab", b"b", b""];
+pub const POOL_COMPS: [&[u8]; 7] = [b"", b"a", b"ab", b"b", b"\x00", b"\xff", b"a\x00"];
+
+/// A per-case pool of compound keys with shared prefixes, empty components and keys that are
+/// prefixes of one another.
+pub struct KeyPool {
+    pub keys: Vec<FKey>,
+}
+
+impl KeyPool {
+    pub fn comp(rng: &mut crate::Rng) -> Vec<u8> {
+        rng.pick(&POOL_COMPS).to_vec()
+    }
+    pub fn fresh_key(rng: &mut crate::Rng) -> FKey {
+        let nn = if rng.chance(1, 10) { 4 } else { 2 };
+        let name = rng.pick(&POOL_NAMES[..nn]).to_vec();
+        let n = rng.below(4) as usize;
+        let comps = (0..n).map(|_| Self::comp(rng)).collect();
+        (name, comps)
+    }
+    pub fn new(rng: &mut crate::Rng) -> Self {
+        let mut keys: Vec<FKey> = vec![];
+        let n = rng.range(3, 9) as usize;
+        while keys.len() < n {
+            let k = if keys.is_empty() || rng.chance(1, 3) {
+                Self::fresh_key(rng)
+            } else {
+                let mut k = rng.pick(&keys).clone();
+                match rng.below(4) {
+                    0 => {
+                        k.1.pop();
+                    }
+                    1 | 2 => {
+                        let c = Self::comp(rng);
+                        k.1.push(c);
+                    }
+                    _ => {
+                        if let Some(l) = k.1.last_mut() {
+                            *l = rng.pick(&POOL_COMPS).to_vec();
+                        }
+                    }
+                }
+                k
+            };
+            if !keys.contains(&k) {
+                keys.push(k);
+            }
+        }
+        KeyPool { keys }
+    }
+    pub fn key(&self, rng: &mut crate::Rng) -> FKey {
+        if rng.chance(1, 12) {
+            Self::fresh_key(rng)
+        } else {
+            rng.pick(&self.keys).clone()
+        }
+    }
+    pub fn prefix(&self, rng: &mut crate::Rng) -> FKey {
+        let mut k = self.key(rng);
+        let cut = rng.below(k.1.len() as u64 + 1) as usize;
+        if !rng.chance(1, 4) {
+            k.1.truncate(cut);
+        }
+        k
+    }
+    pub fn val(rng: &mut crate::Rng) -> Vec<u8> {
+        let n = rng.below(3) as usize;
+        rng.bytes(n)
+    }
+}
